@@ -104,8 +104,8 @@ type togoRoot struct {
 	mk   func() interface{}
 	echo string // identity method of *VNode for this type; "Touch"+echo[4:] is the mutating one
 	self bool   // the type has a method Self (harness types)
-	// fixedOnly: only hand-written ops use this type (a record of it cannot even be constructed
-	// on the unchanged tree, see notes/C10.md): grid and random streams leave it out
+	// fixedOnly: only hand-written ops use this type; grid and random streams leave it out
+	// (was needed for vpe before fix C10-06; no type uses it today)
 	fixedOnly bool
 }
 
@@ -126,7 +126,7 @@ var togoRoots = []togoRoot{
 	{"vd2", func() interface{} { return &VD2{} }, "EchoVD2", true, false},
 	{"vd4", func() interface{} { return &VD4{} }, "EchoVD4", true, false},
 	{"vwide", func() interface{} { return &VWide{} }, "EchoVWide", true, false},
-	{"vpe", func() interface{} { return &VPE{} }, "EchoVPE", false, true},
+	{"vpe", func() interface{} { return &VPE{} }, "EchoVPE", false, false},
 }
 
 var togoEnv *zygo.Zlisp
